@@ -48,6 +48,16 @@ def translators_C03(repo):
     return {"gen_ops_ast": info}
 
 
+def translators_C06(repo):
+    """C03's functor translation + the table initialisation (tools/gen_init_ast.py -> Generated/InitAst.lean; Proofs/InitAstEq.lean,
+    Properties/C06Ast.lean re-checked by `lake build`)"""
+    sys.path.insert(0, os.path.join(os.path.dirname(os.path.abspath(__file__)), "props_d"))
+    import _init_common as ic
+    out = translators_C03(repo)
+    out.update(ic.translators_init(repo, with_ops=False))
+    return out
+
+
 def streams_C03(ctx, res):
     return ops_streams(ctx, res)
 
@@ -145,10 +155,11 @@ PROPS = {
         "assumptions": ["inputs in the range the property states (x,y,z < p; any word where the property says so)"],
     },
     "C06": {
-        "streams": streams_C06, "search": search_C06, "translators": translators_C03,
+        "streams": streams_C06, "search": search_C06, "translators": translators_C06,
         "rule": "tables regenerated from params.hpp as compiled; every row checked in the Lean kernel; plus library arithmetic (mulmod, compute_shoup, Shoup product, addmod) on every row against the model that uses the generated rows; distinct = distinct op lines",
         "trusted_base": COMMON_TB + ["tools/gen_params.py + harness/dump_params.cpp print the tables the compiler sees", "sympy supplies Pratt-certificate hints only (kernel re-checks them)",
-                                     "the 'hence exact arithmetic' clause is proved about the functor bodies re-translated from the source on every run (tools/gen_ops_ast.py, clang AST, CSem.lean): Nfl.C03Ast.*_ast hold for every row of the regenerated tables"],
+                                     "the 'hence exact arithmetic' clause is proved about the functor bodies re-translated from the source on every run (tools/gen_ops_ast.py, clang AST, CSem.lean): Nfl.C03Ast.*_ast hold for every row of the regenerated tables",
+                                     "the 'derived degrees' clause is proved about the table builder re-translated from core::initialize() / core::prep_wtab on every run (tools/gen_init_ast.py, CSemInit.lean): Nfl.C06Ast.tables_ast / derived_root_ast / derived_invN_ast; the loop over the moduli is not translated (shape checked)"],
         "assumptions": ["kMaxPolyDegree is a power of two (checked by kMaxNN theorems)"],
     },
 }
